@@ -156,6 +156,7 @@ def check_image(c):
     inside, amb = membership(pixset, d, ra, dec)
     rng = np.random.default_rng(c["seed"])
     plane = rng.normal(size=(nr, nc)).astype(np.float32)
+    pre_nan = rng.random((nr, nc)) < (0.08 if c["seed"] % 3 == 0 else 0.0)      # blanks already in the input
     negate = c["negate"]
     expect_blank = inside if negate else ~inside
     tags = dict(negate=negate, route=c["route"])
@@ -166,17 +167,20 @@ def check_image(c):
             awcs = WCS(hdr, naxis=2)
             for ng in (negate, not negate):
                 data = plane.copy()
+                data[pre_nan] = np.nan
                 out = MIMAS.mask_plane(data, awcs, copy.deepcopy(region), negate=ng)
                 outs[ng] = [np.asarray(out)]
         else:
             d_tmp = tempfile.mkdtemp(prefix="c10_")
             nplanes = c["planes"]
+            first = plane.copy()
+            first[pre_nan] = np.nan              # only the first plane carries the input blanks
             if c["cube"] == "2d":
-                arr = plane
+                arr = first
             elif c["cube"] == "3d":
-                arr = np.stack([plane + k for k in range(nplanes)])
+                arr = np.stack([first] + [plane + k for k in range(1, nplanes)])
             else:
-                arr = np.stack([plane + k for k in range(nplanes)])[None]
+                arr = np.stack([first] + [plane + k for k in range(1, nplanes)])[None]
             hdu = fits.PrimaryHDU(arr.copy())
             for k, v in w.header_cards().items():
                 hdu.header[k] = v
@@ -206,7 +210,12 @@ def check_image(c):
         exp = inside if ng else ~inside
         for k, out in enumerate(planes_out):
             blank = ~np.isfinite(out)
-            wrong = (blank != exp) & judge
+            had_nan = pre_nan if (k == 0) else np.zeros_like(pre_nan)
+            if np.any(blank[had_nan] == False):    # noqa: E712
+                res.bad("input-blank-lost", "negate=%s plane %d: a pixel that was blank in the input is not blank" % (ng, k))
+                break
+            blank = blank & ~had_nan                # input blanks are not the mask's doing
+            wrong = (blank != (exp & ~had_nan)) & judge
             if wrong.any():
                 i, j = [int(v[0]) for v in np.where(wrong)]
                 res.bad("wrong-pixels", "negate=%s plane %d: %d pixel(s) differ from the per-pixel oracle, e.g. 0-based (%d,%d) "
@@ -215,18 +224,18 @@ def check_image(c):
                             "blank" if blank[i, j] else "kept", "inside" if inside[i, j] else "outside"),
                         negate=ng, route=c["route"])
                 break
-            keep = ~blank
+            keep = ~blank & ~had_nan
             ref = plane if c["route"] == "plane" or c["cube"] == "2d" else (plane + k)
             if not np.array_equal(out[keep].astype(np.float32), ref[keep]):
                 res.bad("values-changed", "negate=%s plane %d: an unmasked pixel value changed" % (ng, k), negate=ng, route=c["route"])
                 break
-            if k and not np.array_equal(blank, ~np.isfinite(planes_out[0])):
+            if k and not np.array_equal(blank | pre_nan, ~np.isfinite(planes_out[0])):
                 res.bad("planes-differ", "plane %d is masked differently from plane 0" % k, route=c["route"])
                 break
     if True in outs and False in outs and not res.violations:
         b1 = ~np.isfinite(outs[True][0])
         b0 = ~np.isfinite(outs[False][0])
-        if np.any((b1 == b0) & judge):
+        if np.any((b1 == b0) & judge & ~pre_nan):
             res.bad("not-complementary", "negate=True and negate=False results are not complementary")
     res.ambiguous += int(amb.sum())
     both = bool(inside.any() and (~inside).any())
